@@ -86,6 +86,7 @@ func runC01(c *Ctx) {
 		// what the rebuild path reports as added is what AddFast attached
 		bwa := p.Func(otPkg + ":(*treeBuilder).buildWithAdded")
 		addFast := p.Func(otPkg + ":(*Tree).AddFast")
+		bwa, _ = descendTo(bwa, CalleeFn(addFast)) // the second half of the builder may have been split off
 		okb := false
 		detailb := "the changes reported as added by buildWithAdded are drawn from the slice Tree.AddFast returned (only attached changes are persisted)"
 		for _, l := range Loops(bwa) {
